@@ -199,7 +199,7 @@ PROPERTIES = {
                            "constructor; AtLeast.to_b64 / plog.from_b64 pass the object itself. Everything else is pickle's "
                            "(assumed). bounded stand-in: structural equality and equal select() answers after the round trip for "
                            "models, polyhedra (incl. wide integers) and configurators packed after they were queried."},
-    "C18": {"harness_modules": ["contracts.c18"], "rt": ["rt.config:c18_add"], "level": "other", "assumptions": S_ALL,
+    "C18": {"harness_modules": ["contracts.c18", "contracts.c18shape"], "rt": ["rt.config:c18_add"], "level": "other", "assumptions": S_ALL,
             "explanation": "deductive: StingyConfigurator.add (real source, with All.__init__/AtLeast.__init__) on a configurator of any "
                            "width: refuses exactly the clashing ids, otherwise returns a StingyConfigurator with the same id whose "
                            "children are the old ones plus the new rule and whose threshold is their number; receiver untouched "
